@@ -776,6 +776,7 @@ impl InstrFormat for StdHooks06 {
                 instr.opcode, instr.args_blob.len(),
             )));
         }
+        llir::reject_terminal_opcode(emitter, instr)?;
         f.write_i32(instr.time)?;
         f.write_u16(instr.opcode)?;
         f.write_u16(12)?;  // this version writes argsize rather than instr size
@@ -818,6 +819,7 @@ impl InstrFormat for StdHooks10 {
     }
 
     fn write_instr(&self, f: &mut BinWriter, emitter: &dyn Emitter, instr: &RawInstr) -> WriteResult {
+        llir::reject_terminal_opcode(emitter, instr)?;
         f.write_i32(instr.time)?;
         f.write_u16(instr.opcode)?;
         f.write_u16(llir::fit_header_field(emitter, instr, "size", self.instr_size(instr) as i64)?)?;
